@@ -298,6 +298,16 @@ class NonSeekable(io.RawIOBase):
         return self.b.read(n)
 
 
+class ShortReads(NonSeekable):
+    """a raw stream that hands out at most three octets per sized read although it has more (an unbuffered pipe or socket
+    file may); read(-1) gives all the rest"""
+
+    def read(self, n=-1):
+        if n is None or n < 0:
+            return self.b.read()
+        return self.b.read(min(n, 3))
+
+
 def outcome(dec, substrate, spec, T=None, bridge=None):
     try:
         r, rest = dec.decode(substrate, asn1Spec=spec)
@@ -335,7 +345,7 @@ def chk_substrate_kinds(T, v, M, opts):
     for name, dec, b in cases:
         ref = outcome(dec, b, spec, T, bridge)
         kinds = [('BytesIO', lambda: io.BytesIO(b)), ('OctetString', lambda: univ.OctetString(b)),
-                 ('Any', lambda: univ.Any(b)), ('non-seekable', lambda: NonSeekable(b))]
+                 ('Any', lambda: univ.Any(b)), ('non-seekable', lambda: NonSeekable(b)), ('short-reads', lambda: ShortReads(b))]
         path = os.path.join(tmpdir, 'f%d.bin' % os.getpid())
         with open(path, 'wb') as fh:
             fh.write(b)
